@@ -58,6 +58,13 @@ def ctx():
         kext = [x for x in ref.accepted(kts[0], len(keys) - 1, ref.literals()) if x not in ref.alias and x not in exts and x != mext]
         if kext:
             E["K1"] = "/".join(F1[:-1] + [kext[0]])
+    # the same file in another value of a closed key after the version (the publish state of the work file): C17 creates it
+    # as a symbolic link to F1's file
+    for i in range(vi + 1, len(keys) - 1):
+        alt = [x for x in ref.accepted(lt, i, ref.literals()) if x != F1[i] and x not in ("*", ">")]
+        if alt and ref.templates[lt][i][1] is not None:
+            E["L1"] = "/".join(F1[:i] + [alt[0]] + F1[i + 1:])
+            break
     prs = {n: PathsRef(n) for n in PathsRef().configs}
     return dict(ref=ref, prs=prs, names=list(prs), E=E)
 
@@ -109,9 +116,10 @@ class Model:
         return ep[0] if ep else None
 
     def sidecar(self, e):
+        # the data of an entity is keyed as the statement scopes it: by its path without the final extension (two entities
+        # share data exactly when their paths differ by no more than the extension) - not by asking the configuration
         p = self.path(e)
-        C = self.C
-        return C["prs"][C["names"][0]].sidecar(p) if p else None
+        return os.path.splitext(p)[0] if p else None
 
     def exists(self, e):
         s = self.C["E"][e]
@@ -261,8 +269,13 @@ def expected(C, model):
         for i in range(1, len(parts)):
             inv.add(("/".join(parts[:i]), "d"))
         inv.add((rel, "f" if is_file else "d"))
+    # where the data file of a key lies is the configuration's business (its get_data_json_path for an entity of that key)
+    where = {}
+    for e in C["E"]:
+        if model.sidecar(e) and model.sidecar(e) not in where:
+            where[model.sidecar(e)] = C["prs"][c0].sidecar(model.path(e))
     for sc, d in model.data.items():
-        inv.add((os.path.relpath(sc, root), "f"))
+        inv.add((os.path.relpath(where[sc], root), "f"))
     exp["tree"] = sorted([list(x) for x in inv])
     return json.loads(json.dumps(exp))
 
